@@ -322,11 +322,13 @@ std::string harness_run()
   typedef Geometry::ConformalMesh<FEAT::Shape::Hypercube<2>> Quad;
   typedef Geometry::ConformalMesh<FEAT::Shape::Simplex<2>> Tria;
   typedef Geometry::ConformalMesh<FEAT::Shape::Hypercube<3>> Hexa;
+  typedef Geometry::ConformalMesh<FEAT::Shape::Simplex<3>> Tetra;
   switch(cfg.mesh)
   {
   case 0: case 2: run_world<ShapeKit<Quad>>(cfg); break;
   case 1: case 4: run_world<ShapeKit<Tria>>(cfg); break;
   case 3: run_world<ShapeKit<Hexa>>(cfg); break;
+  case 5: run_world<ShapeKit<Tetra>>(cfg); break;
   }
   sim::clock_set_read_cost(0);
   if(cfg.layers > 1) sim::probe("multi_layer_world");
